@@ -8,10 +8,11 @@ CONSTANTS
   MaxTime = 4
   Pick <- PickAll
   KnownGaps = {}
-  Variants = {"L1", "L1e", "L2", "Lbad", "Lnone"}
-  Variants2 = {"L2", "Lbad", "Lnone"}
-  StartOffs = {1, 2, 3}
-  EndOffs = {1, 2, 3, 5}
+  Variants = {"L1", "L1e", "Lbad"}
+  Variants2 = {"L2", "Lnone"}
+  StartOffs = {0, 2, 3, 4}
+  EndOffs = {0, 2, 3, 4, 6}
+  FixedStart <- Unset
   MaxBatch = 2
   SameInstant = TRUE
   Ops = {"post1", "post2", "gc", "tickgc", "tick", "get"}
